@@ -48,6 +48,9 @@ func runPackage(p pkgSpec) (fails []outcome, stage string) {
 	if g.TimedOut {
 		return []outcome{{"gombok|timeout", "gombok did not finish within 120 s"}}, "gombok"
 	}
+	if scratch.ToolchainTrouble(g.Out) {
+		return []outcome{{"infra|toolchain-trouble", clip(g.Out, 600)}}, "infra"
+	}
 	if g.ExitCode != 0 || strings.Contains(g.Out, "panic:") || strings.Contains(g.Out, "goroutine ") {
 		first := ""
 		for _, l := range strings.Split(g.Out, "\n") {
@@ -62,7 +65,7 @@ func runPackage(p pkgSpec) (fails []outcome, stage string) {
 		return []outcome{{"gombok-failed|" + scratch.ErrorClass(first), "gombok exit " + fmt.Sprint(g.ExitCode) + ": " + clip(g.Out, 1500)}}, "gombok"
 	}
 	gen := m.ReadFile("pa/pa_value_generated.go")
-	if gen == "" {
+	if gen == "" && p.anyAppliedField() {
 		return []outcome{{"gombok|no-output", "gombok wrote no pa_value_generated.go; output: " + clip(g.Out, 800)}}, "gombok"
 	}
 	if r := m.Go(180*time.Second, "build", "./pa"); r.ExitCode != 0 {
@@ -99,6 +102,21 @@ func runPackage(p pkgSpec) (fails []outcome, stage string) {
 	return fails, "law"
 }
 
+// gombok deliberately emits nothing for a struct none of whose fields it applies (processValue returns
+// early when applyFields is empty), and writes no file when nothing at all was emitted. So a missing
+// output file is a violation only if some struct has a field gombok must act on; otherwise the law test
+// below runs against the package as it is and decides.
+func (p pkgSpec) anyAppliedField() bool {
+	for _, s := range p.structs {
+		for _, f := range s.fields {
+			if f.applied() {
+				return true
+			}
+		}
+	}
+	return false
+}
+
 func stripPos(s string) string {
 	if i := strings.Index(s, ": "); i >= 0 {
 		return s[i+2:]
@@ -117,6 +135,58 @@ const ruleC07 = "package spec drawn from a grammar: 1-4 structs under @fp.Value 
 
 // PkgCheck registers one sub-check running generated packages through gombok.
 // prop "C07": all laws except the JSON clauses; prop "C15": only the JSON clauses.
+// DrawValueSource draws a package from the C07 grammar and returns its source text (pa/types.go) and a
+// few labels. Used by C13, whose determinism clause ranges over "the scratch packages of C07/C08".
+func DrawValueSource(rt *rapid.T) (src string, labels []string) {
+	n := rapid.IntRange(1, 4).Draw(rt, "nstructs")
+	var p pkgSpec
+	for i := 0; i < n; i++ {
+		p.structs = append(p.structs, drawStruct(rt, i+1, ExcludeFragile, false))
+	}
+	seen := map[string]bool{}
+	add := func(l string) {
+		if !seen[l] {
+			seen[l] = true
+			labels = append(labels, l)
+		}
+	}
+	add(fmt.Sprintf("structs:%d", n))
+	names := map[string]bool{}
+	for _, s := range p.structs {
+		for _, a := range s.annotations() {
+			add("ann:" + a)
+		}
+		if len(s.params) > 0 {
+			add("generic")
+		}
+		for _, f := range s.fields {
+			names[f.name] = true
+		}
+	}
+	for a := range names {
+		for b := range names {
+			if a < b && numericTie(a, b) {
+				add("numeric-tie-names")
+			}
+		}
+	}
+	return p.sourceFixed(), labels
+}
+
+// numericTie: same letters, trailing numbers of equal value (absent counts as 0).
+func numericTie(a, b string) bool {
+	split := func(s string) (string, string) {
+		i := len(s)
+		for i > 0 && s[i-1] >= '0' && s[i-1] <= '9' {
+			i--
+		}
+		return s[:i], strings.TrimLeft(s[i:], "0")
+	}
+	ap, an := split(a)
+	bp, bn := split(b)
+	return ap == bp && an == bn
+}
+
 func PkgCheck(t *testing.T, name string, jsonOnly bool, prop string, casesPerProcess int) {
 	kit.Check(t, name, ruleC07, kit.Opt{Abs: casesPerProcess, HangAfter: 20 * time.Minute}, func(rt *rapid.T, rec *kit.Rec) {
 		n := rapid.IntRange(1, 4).Draw(rt, "nstructs")
